@@ -233,9 +233,10 @@ async fn wrap_case(role: Role, n: u32) -> Vec<(String, String)> {
             ops.push(op);
         }
         c.settle().await;
-        let wire = app.wire();
-        let pids: Vec<u16> = wire.iter().skip(wire_seen).filter_map(|(_, p)| if let R::Publish { pid: Some(p), .. } = p { Some(*p) } else { None }).collect();
-        wire_seen = wire.len();
+        // (only the new part of the log is looked at: the history is long)
+        let pids: Vec<u16> = app.events().iter().skip(wire_seen).filter_map(|(_, e)| if let Ev::Wire(R::Publish { pid: Some(p), .. }) = e { Some(*p) } else { None }).collect();
+        let log_mark = wire_seen;
+        wire_seen = app.len();
         if pids.len() != 3 {
             vio.push(("send did not reach the wire on a healthy connection".into(), format!("sends #{k}..: {} of 3 on the wire, results {:?}", pids.len(), ops.iter().map(Op::result).collect::<Vec<_>>())));
             break;
@@ -262,7 +263,7 @@ async fn wrap_case(role: Role, n: u32) -> Vec<(String, String)> {
                 break 'outer;
             }
         }
-        if !app.stops().is_empty() {
+        if app.events().iter().skip(log_mark).any(|(_, e)| matches!(e, Ev::CtlEnter { stop: Some(_), .. })) {
             vio.push(("connection ended during a correctly acknowledged history".into(), format!("send #{k}: {:?}", app.stops())));
             break;
         }
@@ -509,7 +510,7 @@ pub fn run(opts: &Opts) -> i32 {
     });
 
     // ---- C
-    let n_wrap: u32 = if quick { 3_000 } else { 70_000 };
+    let n_wrap: u32 = if quick { 66_500 } else { 400_000 };
     pool::par_for(4, None, |i| {
         let role = Role::ALL[i as usize];
         let r = crate::explore::exec_with(wrap_case(role, n_wrap), 400_000_000, std::time::Duration::from_secs(900));
